@@ -163,6 +163,7 @@ class Tail:
         self.i = 0
         self.values = values
         self.nparam = param_offset
+        self.last_kind = None
 
     def word(self, *ws):
         for w in ws:
@@ -181,6 +182,7 @@ class Tail:
         t = self.t[self.i] if self.i < len(self.t) else None
         if t is None:
             return "<missing>"
+        self.last_kind = t.kind
         if t.kind == "OP" and t.text == "-" and self.i + 1 < len(self.t) and self.t[self.i + 1].kind == "NUM":
             self.i += 2
             return -int(self.t[self.i - 1].value)
@@ -208,11 +210,12 @@ def match_tail(dialect, toks, values, nparam_before, has_order, lim, off, positi
     fam = DIALECT_OF[dialect]
     generic_class = dialect == "Query"
     got_lim = got_off = "<none>"
+    kind_lim = kind_off = None
     if fam in ("sqlite", "mysql", "postgresql"):
         if T.word("LIMIT"):
-            got_lim = T.value()
+            got_lim = T.value(); kind_lim = T.last_kind
         if T.word("OFFSET"):
-            got_off = T.value()
+            got_off = T.value(); kind_off = T.last_kind
             if got_lim == "<none>" and fam in ("sqlite", "mysql") and not generic_class:
                 return "offset-without-limit", "OFFSET without LIMIT is not grammatical in %s" % fam
         if not T.done():
@@ -244,11 +247,11 @@ def match_tail(dialect, toks, values, nparam_before, has_order, lim, off, positi
             return "generic-limit", "generic LIMIT/OFFSET emitted for SQL Server"
         if not T.word("OFFSET"):
             return "fetch-without-offset", "FETCH NEXT requires OFFSET in SQL Server"
-        got_off = T.value()
+        got_off = T.value(); kind_off = T.last_kind
         if not T.word("ROWS"):
             return "malformed", "OFFSET m ROWS expected"
         if T.word("FETCH", "NEXT"):
-            got_lim = T.value()
+            got_lim = T.value(); kind_lim = T.last_kind
             if not T.word("ROWS", "ONLY"):
                 return "malformed", "FETCH NEXT n ROWS ONLY expected"
         if not T.done():
@@ -264,7 +267,7 @@ def match_tail(dialect, toks, values, nparam_before, has_order, lim, off, positi
             # FETCH first: only fine when no OFFSET follows
             save = T.i
             T.word("FETCH", "NEXT")
-            got_lim = T.value()
+            got_lim = T.value(); kind_lim = T.last_kind
             if not T.word("ROWS", "ONLY"):
                 return "malformed", "FETCH NEXT n ROWS ONLY expected"
             if T.peek_word("OFFSET"):
@@ -272,11 +275,11 @@ def match_tail(dialect, toks, values, nparam_before, has_order, lim, off, positi
             T.i = T.i
         else:
             if T.word("OFFSET"):
-                got_off = T.value()
+                got_off = T.value(); kind_off = T.last_kind
                 if not T.word("ROWS"):
                     return "malformed", "OFFSET m ROWS expected"
             if T.word("FETCH", "NEXT"):
-                got_lim = T.value()
+                got_lim = T.value(); kind_lim = T.last_kind
                 if not T.word("ROWS", "ONLY"):
                     return "malformed", "FETCH NEXT n ROWS ONLY expected"
         if not T.done():
@@ -285,6 +288,12 @@ def match_tail(dialect, toks, values, nparam_before, has_order, lim, off, positi
     want_off = "<none>" if off is None else off
     if top and fam == "mssql":
         want_lim = "<none>"
+    if values is not None:
+        # parameterised mode: the user's limit/offset travel in the parameter list, not in the text
+        if want_lim != "<none>" and got_lim == want_lim and kind_lim != "PARAM":
+            return "not-parameterised", "limit value is inline although a parameterizer was supplied"
+        if want_off != "<none>" and got_off == want_off and kind_off != "PARAM":
+            return "not-parameterised", "offset value is inline although a parameterizer was supplied"
     if got_lim != want_lim or got_off != want_off:
         if (got_lim, got_off) == (want_off, want_lim) and want_lim != want_off:
             return "slots-swapped", "limit/offset values in each other's slots (limit slot %r, offset slot %r)" % (got_lim, got_off)
